@@ -171,6 +171,29 @@ impl Model {
     }
 }
 
+/// two written relations that are the same dependency: same name, qualifier and operator, versions
+/// that compare equal in the Debian order (`1` = `0:1` = `1-0`), the same set of architectures, the same
+/// profile groups. Such relations are "equal" for the order of entries: the next alternative decides.
+fn same_relation(p: &RelM, q: &RelM) -> bool {
+    if p.name != q.name || p.archqual != q.archqual || p.profiles != q.profiles {
+        return false;
+    }
+    let set = |a: &Option<Vec<String>>| a.as_ref().map(|v| { let mut v = v.clone(); v.sort(); v });
+    if set(&p.archs) != set(&q.archs) {
+        return false;
+    }
+    match (&p.version, &q.version) {
+        (None, None) => true,
+        (Some((o1, v1)), Some((o2, v2))) if o1 == o2 => {
+            match (v1.parse::<debversion::Version>(), v2.parse::<debversion::Version>()) {
+                (Ok(a), Ok(b)) => guard(move || a == b).unwrap_or(false),
+                _ => false,
+            }
+        }
+        _ => false,
+    }
+}
+
 #[derive(Clone, Debug, PartialEq, Eq, PartialOrd, Ord)]
 enum Den {
     Alts(Vec<RelM>),
@@ -964,7 +987,7 @@ fn run_wrap(text: &str, allow: bool) -> Resp {
                             (Den::Alts(a), Den::Alts(b)) => {
                                 for k in 0..a.len().max(b.len()) {
                                     match (a.get(k), b.get(k)) {
-                                        (Some(p), Some(q)) if p == q => continue,
+                                        (Some(p), Some(q)) if p == q || same_relation(p, q) => continue,
                                         (Some(p), Some(q)) => return p.name > q.name,
                                         (Some(_), None) => return true,
                                         _ => return false,
